@@ -1,5 +1,5 @@
 //! slicec-bounded <check>   -- prints one JSON object per counterexample (at most 5) and a summary.
-//! checks: plugin (C19)  preproc (C06)  decode (C11)  totals (C07)  visitor (C20)  fileset (C17)  lexical (C01)  snippet (C09)  lints (C13)
+//! checks: plugin (C19)  preproc (C06)  decode (C11)  totals (C07)  visitor (C20)  fileset (C17)  lexical (C01)  snippet (C09)  lints (C13)  spans (C09)
 use std::collections::{BTreeMap, HashMap, HashSet};
 
 mod oracle_fileset;
@@ -8,6 +8,7 @@ mod oracle_lints;
 mod oracle_plugin;
 mod oracle_preproc;
 mod oracle_snippet;
+mod oracle_spans;
 mod oracle_visitor;
 
 fn js(s: &str) -> String {
@@ -97,9 +98,10 @@ fn main() {
         "lexical" => oracle_lexical::run(),
         "snippet" => oracle_snippet::run(),
         "lints" => oracle_lints::run(),
+        "spans" => oracle_spans::run(),
         "one" => oracle_lexical::one(&std::env::args().nth(2).unwrap_or_default()),
         _ => {
-            eprintln!("usage: slicec-bounded plugin|preproc|decode|totals|visitor|fileset|lexical|snippet|lints");
+            eprintln!("usage: slicec-bounded plugin|preproc|decode|totals|visitor|fileset|lexical|snippet|lints|spans");
             2
         }
     };
